@@ -26,6 +26,7 @@ func C01Cells() []cells.Cell {
 	cs = append(cs, cells.SecurityCells()...)
 	cs = append(cs, cells.RespSetCells()...)
 	cs = append(cs, cells.RefOrderCells()...)
+	cs = append(cs, cells.OneOfOrderCells()...)
 	// responses shared between operations and statuses, through aliases, headers shared between responses
 	for _, c := range respCells("quick") {
 		if c.Attrs["fam"] == "respshare" {
@@ -217,10 +218,41 @@ func C01(run *report.Run) {
 				Expected: "two features that each yield a compilable package also do so together", Detail: map[string]any{"job": j, "typeErrors": r.TypeErr}})
 		}
 	})
+	// ---- used output directories: every representative cell generated into a directory that already
+	// holds the (larger) output of another document, with other flags -------------------------------
+	var regen []c01state
+	for k, c := range reps {
+		f := cells.Flags{Client: k%2 == 0, DoNotEdit: k%3 != 0, Cors: false, Base: "none"}
+		regen = append(regen, c01state{c, f})
+	}
+	rjobs := make([]*genrun.Job, len(regen))
+	for i, st := range regen {
+		rjobs[i] = JobFor(env, fmt.Sprintf("r%06d", i), st.cell, st.flags)
+		rjobs[i].Pre = &genrun.Job{Spec: mapFat(0), Package: "gen", Client: true, DoNotEdit: true, Cors: true}
+	}
+	env.Pool.RunAll(rjobs, func(j *genrun.Job, r *genrun.Result) {
+		var i int
+		fmt.Sscanf(j.ID, "r%d", &i)
+		st := regen[i]
+		if r.Outcome == "internal" {
+			internal("job %s: %s", st.cell.ID, r.Msg)
+		}
+		if r.Outcome != genrun.Success {
+			return // judged at level 1
+		}
+		judged++
+		files += int64(len(r.Files))
+		for _, va := range judgeStatic(r, st.flags.Client) {
+			run.Violate(&report.Violation{Attrs: mergeAttrs(st.cell.Attrs, va, map[string]string{"dir": "used", "client": fmt.Sprint(st.flags.Client)}), State: st.cell.ID + " × " + st.flags.String() + " into a used directory",
+				Observed: "generator reported success; " + va["oracle"] + " oracle failed in " + va["file"] + ": " + va["diag"],
+				Expected: "the package compiles whatever an earlier run left in the output directory", Detail: map[string]any{"job": j, "typeErrors": r.TypeErr, "syntaxErrors": r.SyntaxErr}})
+		}
+	})
+	run.Cov["used_directory_runs"] = len(regen)
 	run.Cov["level2_representatives"] = len(reps)
 	run.Cov["level2_pairs"] = len(pairStates)
 	run.Cov["level2_outcomes"] = pairOutcomes
-	run.Cov["states"] = len(states) + len(pairStates)
+	run.Cov["states"] = len(states) + len(pairStates) + len(regen)
 	run.Cov["transitions"] = files
 	run.Cov["traces_validated_against_impl"] = judged
 	run.Cov["generator_outcomes"] = outcomes
